@@ -75,11 +75,12 @@ theorem zip_eq_range (st : St) :
 def slackQ (st : St) (j : Nat) : Rat :=
   AdaptaVerif.Spec.Qp.slack (problemOf st).s (toQ (st.cons[j]!)) st.pos
 
-theorem slackQ_eq (st : St) (j : Nat) (hs : ∀ i : Nat, (st.vars[i]!).scale ≠ 0) :
+theorem slackQ_eq (st : St) (j : Nat) (hs : ∀ i : Nat, i < st.vars.size → (st.vars[i]!).scale ≠ 0)
+    (hl : (st.cons[j]!).l < st.vars.size) (hr : (st.cons[j]!).r < st.vars.size) :
     slackQ st j = st.uval (st.cons[j]!).r - (st.cons[j]!).gap - st.uval (st.cons[j]!).l := by
   unfold slackQ AdaptaVerif.Spec.Qp.slack problemOf toQ
   simp only
-  rw [scale_mul_pos st _ (hs _), scale_mul_pos st _ (hs _)]
+  rw [scale_mul_pos st _ (hs _ hr), scale_mul_pos st _ (hs _ hl)]
 
 /-- quiescence up to `eps`: nothing violated, every unflagged… every constraint holds, and no active
     inequality has a multiplier below `-eps` -/
@@ -90,7 +91,7 @@ structure Quiescent (eps : Rat) (st : St) : Prop where
     -eps ≤ lamOf st j
 
 theorem kktEps_of_quiescent (eps : Rat) (st : St) (hinv : Inv st) (heps : 0 ≤ eps)
-    (hs : ∀ i : Nat, (st.vars[i]!).scale ≠ 0)
+    (hs : ∀ i : Nat, i < st.vars.size → (st.vars[i]!).scale ≠ 0)
     (hstat : BlockStationary st) (hq : Quiescent eps st) :
     KKTeps eps (problemOf st) st.pos (lamList st) := by
   have htight := AdaptaVerif.Lemmas.VpscLoop.tightActive_of_inv hinv
@@ -133,7 +134,7 @@ theorem kktEps_of_quiescent (eps : Rat) (st : St) (hinv : Inv st) (heps : 0 ≤ 
           rw [if_pos (show (toQ (st.cons[j]!)).l = i from hl), if_neg (fun hh => ha hh.1), this]
       · rw [if_neg (show ¬ (toQ (st.cons[j]!)).l = i from hl), if_neg (fun hh => hl hh.2)]
     rw [h1, h2, hst]
-    have hsi := hs i
+    have hsi := hs i (by simpa [problemOf] using hi)
     simp only [problemOf, qOf, St.dfdv]
     field_simp
   · -- sign and complementary slackness
@@ -149,7 +150,7 @@ theorem kktEps_of_quiescent (eps : Rat) (st : St) (hinv : Inv st) (heps : 0 ≤ 
         · exact Or.inr (hq.sign j hj ha (by simpa using he))
       · have ht := htight _ (AdaptaVerif.Lemmas.VpscLoop.getElem!_mem' _ j hj) ha
         have : AdaptaVerif.Spec.Qp.slack (problemOf st).s (toQ (st.cons[j]!)) st.pos = 0 := by
-          have := slackQ_eq st j hs
+          have := slackQ_eq st j hs (hinv.l_lt j hj) (hinv.r_lt j hj)
           unfold slackQ at this
           rw [this]; linarith
         rw [this]; ring
